@@ -10,10 +10,11 @@ strconv's shortest-digit generation and ParseFloat's correct rounding are parame
 import JsonV.Lemmas.NumInt
 import JsonV.Lemmas.NumGrammar
 import JsonV.Lemmas.NumDenote
+import JsonV.Lemmas.NumTok
 
 namespace JsonV.Props.C10
 open JsonV JsonV.Model.Number JsonV.Spec.Ecma
-open JsonV.Lemmas.NumParse JsonV.Lemmas.NumInt JsonV.Lemmas.NumFloat JsonV.Lemmas.NumGrammar
+open JsonV.Lemmas.NumParse JsonV.Lemmas.NumInt JsonV.Lemmas.NumFloat JsonV.Lemmas.NumGrammar JsonV.Lemmas.NumTok
 
 /-! ### Tie A: constants regenerated from the Go source -/
 
@@ -228,15 +229,34 @@ theorem typed_eq_raw (pf : Bytes → Fl) :
     · rw [mkUint_tokUint pf u h, tokenUint_class, formatUint_canonical, bytesVal_formatUint]
       simp [h]
 
-/-- NOT PROVED (modelled, validated by correspondence `num ttok`): Token.Int on a jsontext.Float/Float32 token.
-The model mirrors the code, including its deviation N1 at exactly 2^63 (saturated value, no error). -/
-def typedFloat_class_full : Prop := ∀ (pf : Bytes → Fl) (f : Fl) (b : Bool), f.inf = false →
+/-- jsontext.Float / Float32 token → Token.Int, for every finite value (`truncInt f` is the value truncated toward
+zero): fractional ⇒ syntax error carrying the truncated, saturated value; integral and inside the int64 range ⇒
+exact, no error; integral and outside — including exactly 2^63 — ⇒ saturated with a range error. -/
+theorem typedFloat_int_class (pf : Bytes → Fl) (f : Fl) (b : Bool) (hf : f.inf = false) :
     tokInt pf (.float f b) =
-      (let v : Int := if f.neg then -(f.truncAbs : Int) else f.truncAbs
-       if !f.isIntegral then (f64toi64 f, .syntax)
-       else if -(2 ^ 63 : Int) ≤ v ∧ v < 2 ^ 63 then (v, .none)
-       else if v = 2 ^ 63 then (2 ^ 63 - 1, .none)
-       else if v < 0 then (-(2 ^ 63), .range) else (2 ^ 63 - 1, .range))
+      if f.isIntegral = false then (f64toi64 f, .syntax)
+      else if -(2 ^ 63 : Int) ≤ truncInt f ∧ truncInt f < 2 ^ 63 then (truncInt f, .none)
+      else if truncInt f < 0 then (-(2 ^ 63), .range) else (2 ^ 63 - 1, .range) := tokInt_float pf f b hf
+
+/-- … → Token.Uint: fractional or carrying a minus sign (also −0) ⇒ syntax error; integral in [0, 2^64) ⇒ exact;
+integral and ≥ 2^64 — including exactly 2^64 — ⇒ MaxUint64 with a range error. -/
+theorem typedFloat_uint_class (pf : Bytes → Fl) (f : Fl) (b : Bool) (hf : f.inf = false) :
+    tokUint pf (.float f b) =
+      if f.isIntegral = false ∨ f.neg = true then (f64tou64 f, .syntax)
+      else if f.truncAbs < 2 ^ 64 then (f.truncAbs, .none) else (2 ^ 64 - 1, .range) := tokUint_float pf f b hf
+
+/-- The value reported with a syntax error (token.go f64toi64 / f64tou64) is the truncation toward zero, saturated. -/
+theorem truncation_saturates (f : Fl) (hf : f.inf = false) :
+    f64toi64 f = (if truncInt f < -(2 ^ 63) then -(2 ^ 63) else if truncInt f ≥ 2 ^ 63 then 2 ^ 63 - 1 else truncInt f) ∧
+    f64tou64 f = (if f.neg then 0 else if f.truncAbs ≥ 2 ^ 64 then 2 ^ 64 - 1 else f.truncAbs) :=
+  ⟨f64toi64_clamp f hf, f64tou64_clamp f hf⟩
+
+-- 2^63 as a float token: integral, out of range ⇒ (MaxInt64, range); as Uint it is exact
+example (pf : Bytes → Fl) : tokInt pf (.float ⟨false, false, 2 ^ 52, 11⟩ false) = (2 ^ 63 - 1, .range) ∧
+    tokUint pf (.float ⟨false, false, 2 ^ 52, 11⟩ false) = (2 ^ 63, .none) := by
+  constructor
+  · rw [typedFloat_int_class pf _ _ rfl, if_neg (by decide), if_neg (by decide), if_neg (by decide)]
+  · rw [typedFloat_uint_class pf _ _ rfl, if_neg (by decide), if_pos (by decide)]; rfl
 
 /-! ### floats: layout of the shortest decomposition -/
 
